@@ -1,3 +1,4 @@
+#include <string.h>
 #include "util.h"
 #include <rtosc/arg-val.h>
 #include <rtosc/arg-val-itr.h>
@@ -23,12 +24,14 @@ size_t rtosc_avmessage(char                  *buffer,
     STACKALLOC(rtosc_arg_t, vals, val_max);
     STACKALLOC(char, argstr,val_max+1);
 
-    int i;
+    int i, nvals = 0;
     for(i = 0; i < val_max; ++i)
     {
         rtosc_arg_val_t av_buffer;
         const rtosc_arg_val_t* cur = rtosc_arg_val_itr_get(&itr, &av_buffer);
-        vals[i] = cur->val;
+        // rtosc_amessage() takes an rtosc_arg_t only for types with payload
+        if(cur->type && strchr("isbfhtdSrmc", cur->type))
+            vals[nvals++] = cur->val;
         argstr[i] = cur->type;
         rtosc_arg_val_itr_next(&itr);
     }
